@@ -69,14 +69,64 @@ func sizeClassName(n int) string {
 }
 
 type runner struct {
-	r       *vlib.Run
-	d       *vlib.Driver // Lean model (nil when the tie is not available)
-	f2skips int
-	tieOK   int
+	d     *vlib.Driver // Lean model (nil when the tie is not available)
+	tieOK int
 }
 
 type verdict struct {
-	sig, desc string
+	Sig  string `json:"sig"`
+	Desc string `json:"desc"`
+}
+
+// Job is what the parent sends to a worker process; Outcome is the answer.
+type Job struct {
+	Case   Case   `json:"case"`
+	Origin string `json:"origin"` // generated | corpus | replay
+}
+
+type Outcome struct {
+	Case        Case           `json:"case"` // as finally executed (F2 retries change the parameters)
+	Skipped     bool           `json:"skipped"`
+	F2Retries   int            `json:"f2_retries"`
+	V           *verdict       `json:"verdict,omitempty"`
+	Stats       map[string]int `json:"stats"`
+	TieOK       int            `json:"tie_ok"`
+	TieDriver   bool           `json:"tie_driver"`
+	WorkerError string         `json:"worker_error,omitempty"`
+}
+
+var workerRunner *runner
+
+// handle runs one job in a worker process.
+func handle(jobJSON []byte, driverBin string) []byte {
+	if workerRunner == nil {
+		workerRunner = &runner{d: o4pair.StartModelDriverAt(driverBin)}
+	}
+	x := workerRunner
+	var j Job
+	var o Outcome
+	if err := json.Unmarshal(jobJSON, &j); err != nil {
+		o.WorkerError = "bad job: " + err.Error()
+		b, _ := json.Marshal(o)
+		return b
+	}
+	c := j.Case
+	x.tieOK = 0
+	for attempt := 0; ; attempt++ {
+		o.V, o.Skipped, o.Stats = x.runCase(c)
+		if !o.Skipped || j.Origin != "generated" || attempt >= 5 {
+			break
+		}
+		// defect F2 (property C09): regenerate the server seed / tape and count
+		o.F2Retries++
+		rr := vlib.NewRng(c.P.TapeSeed + 77)
+		c.P = o4pair.RandomParams(rr, c.P.IAT, c.P.Biased)
+	}
+	o.Case = c
+	o.TieOK = x.tieOK
+	o.TieDriver = x.d != nil
+	b, _ := json.Marshal(o)
+	return b
 }
 
 // runCase executes one scenario on the real code and applies the S oracle (and the model tie).
@@ -422,26 +472,49 @@ func caseKey(c Case) string {
 	return string(b)
 }
 
-func (x *runner) evaluate(c Case, origin string) {
-	r := x.r
-	var v *verdict
-	var skipped bool
-	var st map[string]int
-	for attempt := 0; ; attempt++ {
-		v, skipped, st = x.runCase(c)
-		if !skipped || origin != "generated" || attempt >= 5 {
-			break
-		}
-		// defect F2 (C09): regenerate the server seed / tape and count
-		x.f2skips++
-		r.Count("skipped", "F2-paranoid-iat-length-0")
-		rr := vlib.NewRng(c.P.TapeSeed + 77)
-		np := o4pair.RandomParams(rr, c.P.IAT, c.P.Biased)
-		c.P = np
+type agg struct {
+	r        *vlib.Run
+	pool     *o4pair.Pool
+	f2skips  int
+	tieOK    int
+	tieCases int
+	noDriver int
+}
+
+// evaluate runs a batch of cases on the worker pool and records the outcomes in case order.
+func (a *agg) evaluate(cases []Case, origin string) {
+	jobs := make([][]byte, len(cases))
+	for i, c := range cases {
+		jobs[i], _ = json.Marshal(Job{Case: c, Origin: origin})
 	}
-	if skipped {
+	for i, out := range a.pool.Run(jobs) {
+		var o Outcome
+		if err := json.Unmarshal(out, &o); err != nil || o.WorkerError != "" {
+			a.r.Violate("harness-worker-failed", "correspondence", fmt.Sprintf("[%s] worker: %v %s", cases[i].Name, err, o.WorkerError), cases[i])
+			continue
+		}
+		a.record(o)
+	}
+}
+
+func (a *agg) record(o Outcome) {
+	r, c, st, v := a.r, o.Case, o.Stats, o.V
+	for k := 0; k < o.F2Retries; k++ {
+		a.f2skips++
+		r.Count("skipped", "F2-paranoid-iat-length-0")
+	}
+	if o.Skipped {
+		a.f2skips++
 		r.Count("skipped", "F2-paranoid-iat-length-0")
 		return
+	}
+	a.tieOK += o.TieOK
+	r.Validated(o.TieOK)
+	if o.TieOK > 0 {
+		a.tieCases++
+	}
+	if !o.TieDriver {
+		a.noDriver++
 	}
 	split := st["split-releases"] > 0 || len(c.Early) > 0
 	r.Case(caseKey(c), split && st["bytes"]+st["early-bytes"] > 0)
@@ -471,10 +544,10 @@ func (x *runner) evaluate(c Case, origin string) {
 	r.Sample(5, map[string]interface{}{"case": c.Name, "iat": c.P.IAT, "early": c.Early, "resp_chunks": c.Resp.String(), "ops": len(c.Ops), "stats": st})
 	if v != nil {
 		kind := "impl-oracle"
-		if len(v.sig) > 4 && v.sig[:4] == "tie-" {
+		if len(v.Sig) > 4 && v.Sig[:4] == "tie-" {
 			kind = "correspondence"
 		}
-		r.Violate(v.sig, kind, fmt.Sprintf("[%s] %s", c.Name, v.desc), c)
+		r.Violate(v.Sig, kind, fmt.Sprintf("[%s] %s", c.Name, v.Desc), c)
 	}
 }
 
@@ -488,16 +561,29 @@ func familyOf(name string) string {
 }
 
 func main() {
+	o4pair.WorkerMain(handle)
 	r := vlib.NewRun("C01")
 	r.Rule = "a case counts as non-trivial when at least one burst (or the handshake response with coalesced data) was released to the receiver in >=2 network reads or together with the handshake, and >=1 payload byte was delivered and compared with what the peer wrote"
 	r.Assumptions = []string{
 		"connections whose iat-mode=2 Write panics with 'iat length was 0' (defect F2, property C09) are skipped and counted under input_distribution.skipped",
 		"goroutine interleavings: one blocked reader goroutine per endpoint while the harness goroutine writes; schedules are sampled, not enumerated",
 	}
-	x := &runner{r: r}
-	x.d = startTieDriver(r)
-	if x.d != nil {
-		defer x.d.Close()
+	pool, err := o4pair.NewPool(0, r.DriverBin)
+	if err != nil {
+		fmt.Fprintln(os.Stderr, "cannot start workers:", err)
+		os.Exit(3)
+	}
+	defer pool.Close()
+	a := &agg{r: r, pool: pool}
+	finish := func() {
+		r.Notes["f2_skipped_connections"] = a.f2skips
+		if a.noDriver > 0 && a.tieOK == 0 {
+			r.Notes["model_tie"] = "model driver o4data not available: S oracle only"
+		} else {
+			r.Notes["model_tie"] = map[string]int{"quiescence_points_compared_with_model": a.tieOK, "connections_with_model": a.tieCases}
+		}
+		pool.Close()
+		r.Finish()
 	}
 
 	if r.ReplayIn != "" {
@@ -506,14 +592,15 @@ func main() {
 			fmt.Fprintln(os.Stderr, "cannot load replay:", err)
 			os.Exit(3)
 		}
-		x.evaluate(c, "replay")
-		r.Finish()
+		a.evaluate([]Case{c}, "replay")
+		finish()
 	}
 
 	// corpus first
 	if dir := os.Getenv("VERIF_DIR"); dir != "" {
 		files, _ := filepath.Glob(filepath.Join(dir, "corpus", "C01", "*.json"))
 		sort.Strings(files)
+		var cs []Case
 		for _, f := range files {
 			b, err := os.ReadFile(f)
 			if err != nil {
@@ -524,48 +611,42 @@ func main() {
 			}
 			if json.Unmarshal(b, &doc) == nil && doc.Case.Name != "" {
 				doc.Case.Name = "corpus-" + doc.Case.Name
-				x.evaluate(doc.Case, "corpus")
+				cs = append(cs, doc.Case)
 				r.Count("corpus", filepath.Base(f))
 			}
 		}
+		a.evaluate(cs, "corpus")
 	}
 
 	rng := vlib.NewRng(r.Seed)
 	start := time.Now()
-	budget := time.Duration(r.Scale(60, 600)) * time.Second
+	budget := time.Duration(r.Scale(70, 780)) * time.Second
 	within := func() bool { return time.Since(start) < budget }
-
-	nCoal := r.Scale(150, 1500)
-	for i := 0; i < nCoal && within(); i++ {
-		x.evaluate(genCoalesced(rng.Fork(), i), "generated")
-	}
-	nB := r.Scale(45, 600)
-	for i := 0; i < nB && within(); i++ {
-		x.evaluate(genBoundary(rng.Fork(), i, i%3), "generated")
-	}
-	nRand := r.Scale(250, 3000)
-	for i := 0; i < nRand && within(); i++ {
-		x.evaluate(genRandom(rng.Fork(), i), "generated")
-	}
-	// all split offsets of small bursts (mode 0): windows around the frame boundaries
-	sweeps := [][]int{{1}, {0}, {1427}, {1428}, {1, 1}}
-	for i, sz := range sweeps {
-		if !within() {
-			break
+	// batches: fixed case counts; the wall-clock guard only protects against a pathologically slow machine
+	batch := func(n int, gen func(i int) Case) {
+		const bs = 64
+		for lo := 0; lo < n && within(); lo += bs {
+			var cs []Case
+			for i := lo; i < lo+bs && i < n; i++ {
+				cs = append(cs, gen(i))
+			}
+			a.evaluate(cs, "generated")
 		}
-		step := 1
-		to := 80
-		if r.Thorough() {
-			to = 3000
-		}
-		x.evaluate(genSweep(rng.Fork(), i, sz, 0, 1, to, step), "generated")
 	}
+	batch(r.Scale(600, 6000), func(i int) Case { return genCoalesced(rng.Fork(), i) })
+	batch(r.Scale(240, 2400), func(i int) Case { return genBoundary(rng.Fork(), i, i%3) })
+	batch(r.Scale(1200, 12000), func(i int) Case { return genRandom(rng.Fork(), i) })
+	// all split offsets of small bursts: windows over whole bursts
+	sweeps := [][]int{{1}, {0}, {1427}, {1428}, {1, 1}, {1449}}
+	to := 160
 	if r.Thorough() {
-		for i := 0; i < 6 && within(); i++ {
-			x.evaluate(genSweep(rng.Fork(), 100+i, []int{vlib.Pick(rng, []int{1, 100, 1427})}, 1+i%2, 1, 120, 1), "generated")
-		}
+		to = 3100
 	}
-	r.Notes["f2_skipped_connections"] = x.f2skips
-	r.Notes["model_tie"] = tieNote(x)
-	r.Finish()
+	batch(len(sweeps)*2, func(i int) Case { return genSweep(rng.Fork(), i, sweeps[i/2], 0, 1, to, 1) })
+	if r.Thorough() {
+		batch(12, func(i int) Case {
+			return genSweep(rng.Fork(), 100+i, []int{vlib.Pick(rng, []int{1, 100, 1427})}, 1+i%2, 1, 150, 1)
+		})
+	}
+	finish()
 }
